@@ -1,7 +1,7 @@
-\* generated by lib/brokerlib.py mc_configs (kept here so that the model can be run by hand: tlc -config MC_core.cfg Broker.tla)
+\* generated by lib/brokerlib.py mc_configs (kept here so that the model can be run by hand: tlc -config MC_core_live.cfg Broker.tla)
 CONSTANTS
   Proxies = {"p1", "p2"}
-  Clients = {"c1", "c2"}
+  Clients = {"c1"}
   Answers = {"a1", "a2"}
   PT = 2
   CT = 2
@@ -10,9 +10,9 @@ CONSTANTS
   StrictTimers = FALSE
   D1Fixed = TRUE
   D2Fixed = TRUE
-  PNatSet = {"unrestricted"}
-  CNatSet = {"restricted"}
-  FpSet = {"default", "b2"}
+  PNatSet = {"unrestricted", "restricted"}
+  CNatSet = {"restricted", "unrestricted"}
+  FpSet = {"default"}
   UnknownTargets = TRUE
   Bridges = {"default", "b2"}
   DupSids = FALSE
@@ -22,4 +22,4 @@ CONSTANTS
 SPECIFICATION Spec
 VIEW view
 INVARIANTS TypeOK NoCrossWire OneOfferPerPoll OnePollPerOffer ClaimsDisjoint RelayURLRight UnlistedNeverMatched NATCompatible NoGhost GaugeIsIdmap HeapsInIdmap GaugeCountsHeaps
-PROPERTIES MatchRight 
+PROPERTIES MatchRight EveryRequestCompletes
